@@ -40,5 +40,8 @@ mod incoming;
 #[allow(clippy::module_inception)]
 mod server;
 mod server_handle;
+#[cfg(pavex_verif)]
+#[doc(hidden)]
+pub mod sim;
 mod shutdown_mode;
 mod worker;
